@@ -1421,7 +1421,8 @@ MANIFEST = {
             "rational solution; the stuck row is the Farkas-style explanation), handle_assertion_sat_sound / handle_assertion_unsat_sound, and "
             "end to end simplex_sat_sound / simplex_unsat_sound (Simplex(); add_ineqs(qs); handle_assertion(): no exception => mapping satisfies "
             "every given constraint except the ignored form 0*x ~ b; UNSATException / AssertUpper/LowerException => qs has no rational "
-            "solution). All for every fuel: termination of check is NOT proved (the code repairs the last violated basic variable, not "
+            "solution), bb_sat_sound_partial (a branch-and-bound node is such a run on a superset of the constraints, so a mapping it returns "
+            "satisfies the original constraints; the search loop is not modelled). All for every fuel: termination of check is NOT proved (the code repairs the last violated basic variable, not "
             "Bland's rule); the outcome 'fuel' claims nothing. NOT modelled / not proved: branch_and_bound (its verdicts are compared with Z3 "
             "and brute force, witnesses go through checkWitness), simplex_strict (delta-pairs; Z3 and exact witness evaluation), the "
             "proof-producing wrappers (checked by theory.check_proof). In addition every answer of the real Simplex is judged per run: "
